@@ -27,10 +27,37 @@ def random_header(rng, family):
     if family == "bufedge":
         cap = rng.choice(["1", "1", "2", "2", "3", "4", "5"])
         return f"new bufedge {cap} {rng.choice(['FIFO', 'FIFO', 'LIFO'])}"
+    if family == "prq":
+        return f"new prq {rng.choice([1, 1, 2, 3, 5])}"
     raise ValueError(family)
+
+def gen_prq_history(rng, header, nops, stats=None):
+    impl = make_impl(header)
+    ops, lines = [], []
+    nreq = 0; nitem = 0
+    for _ in range(nops):
+        r = rng.random()
+        if r < 0.35:
+            op = ("pput", rng.choice(PRIOS), nitem, rng.randrange(3)); nitem += 1
+        elif r < 0.70:
+            op = ("pget", rng.choice(PRIOS))
+        elif r < 0.78 and nreq:
+            op = ("cancel", rng.randrange(nreq))
+        elif r < 0.93:
+            op = ("kstep",)
+        else:
+            op = ("settle",)
+        if op[0] in ("pput", "pget"): nreq += 1
+        line = impl.do(op)
+        ops.append(op); lines.append(line)
+        if stats is not None:
+            stats["ops"][op[0]] = stats["ops"].get(op[0], 0) + 1
+    return ops, lines
 
 def gen_history(rng, header, nops, malformed=0.2, stats=None):
     """Returns (ops, impl_lines).  ops are tuples, see stores_impl.*Impl.dispatch."""
+    if header.split()[1] == "prq":
+        return gen_prq_history(rng, header, nops, stats)
     impl = make_impl(header)
     w = header.split(); family = w[1]
     is_filter = family == "pos" and w[4] != "0"
